@@ -342,11 +342,11 @@ pub fn gen_and_run(seed: u64, index: u64, scratch: &str, cfg: &GenCfg, fenced: &
     let v0 = push(&mut sc, &mut h, Op::Project { files: cur_files.clone(), bystanders: cur_by.clone(), faulty: None, note: "initial".into() });
     // order relation on the initial version
     if cur_files.len() >= 2 {
-        let perms = if cfg.all_perms || cur_files.len() <= 3 {
+        let perms = if (cfg.all_perms && cur_files.len() <= 4) || cur_files.len() <= 3 {
             all_perms(cur_files.len())
         } else {
             let mut p = vec![(0..cur_files.len()).rev().collect::<Vec<usize>>()];
-            for _ in 0..4 {
+            for _ in 0..(if cfg.all_perms { 23 } else { 4 }) {
                 p.push(random_perm(&mut rng, cur_files.len()));
             }
             p
@@ -783,9 +783,9 @@ pub fn run_check(tier_name: &str, seed: u64, verif_dir: &str) -> i32 {
         }
     }
 
-    let n_clean = envnum("VERIF_C13_CLEAN", if thorough { 2500 } else { 220 });
-    let n_faulty = envnum("VERIF_C13_FAULTY", if thorough { 5000 } else { 380 });
-    let n_enum = envnum("VERIF_C13_ENUM", if thorough { 60 } else { 3 });
+    let n_clean = envnum("VERIF_C13_CLEAN", if thorough { 1500 } else { 220 });
+    let n_faulty = envnum("VERIF_C13_FAULTY", if thorough { 3500 } else { 380 });
+    let n_enum = envnum("VERIF_C13_ENUM", if thorough { 40 } else { 3 });
     let cli_permille = envnum("VERIF_C13_CLI_PERMILLE", if thorough { 500 } else { 150 }) as u64;
     let w = workers();
 
